@@ -47,7 +47,12 @@ META = {
     "assumptions": ["svdstf: Umeyama scale above mat2Sim3's rank threshold atol=1e-5 and sources not all equal (otherwise the code raises / divides by zero; "
                     "outside the property's quantifier)",
                     "ICP recovery clause: every point moved by less than half the distance from its image to any other target "
-                    "(hypothesis of icp_recovers_small_perturbation / icpWith_recovers_small_perturbation; proved, not sampled)"],
+                    "(hypothesis of icp_recovers_small_perturbation / icpWith_recovers_small_perturbation; proved, not sampled); for clouds that "
+                    "enter the basin only after k passes (the slowly converging items of the mixed batches) the same conclusion holds for every "
+                    "pass count > k (icp_recovers_after, icpWith_recovers_after, icpWithB_recovers_after), a recovered item stays recovered "
+                    "(icp_recovered_stays), and more passes are never worse at the level of the returned transforms, in particular an item of a batch "
+                    "is never worse than the item alone with fewer passes (icp_result_more_passes_le, icpWithB_le_alone); WHEN the real loop enters "
+                    "the basin and that the batch-level stepper does not stop before an item's own stepper would is sampled (round6 stream)"],
     "partial": ["EPnP: only the tail (_compute_scale, _compute_solution) is modelled and proved (epnp_compute_scale_exact, epnp_tail_exact; stream "
                 "epnp_scale); the head (control basis, alpha solve, eig null space, lstsq beta candidates, GN refinement, candidate selection) is a "
                 "pipeline of external kernels: ground-truth comparison on generated scenes only (sampling)",
